@@ -440,6 +440,10 @@ pub fn run(ctx: &mut Ctx, hostile: bool) {
                     }
                     if s.inner != Inner::Plain {
                         for pt in &db_prot {
+                            // written as the bare base64 of the plaintext (no stream cipher applied)
+                            if pt.len() >= 4 && prot.iter().any(|t| *t == b64enc(pt)) {
+                                prot_leaks.push(format!("database-protected-value-as-plain-base64:{}", String::from_utf8_lossy(&pt[..pt.len().min(40)])));
+                            }
                             if pt.len() >= 4 && !strings_unprotected_contains(&before, pt) {
                                 if in_text(&texts, pt) {
                                     prot_leaks.push(format!("database-protected-value-in-clear:{}", String::from_utf8_lossy(pt)));
